@@ -38,6 +38,7 @@ def generate(seed, stratum, tier):
   for c in range(1, nclients):
     clients[c].insert(0, ['sleep', 0.001])
   objs = aw.default_objects(1, spied=rng.random() < 0.7)
+  objs[0]['instrumented'] = rng.random() < 0.75
   if rng.random() < 0.4:
     objs[0]['react'] = {'SA': [{'op': rng.choice(['post_fifo', 'post_lifo']), 'sig': 'SB', 'id': 1, 'max': 2}]}
   first = common.draw_sched(rng, grans=('line', 'opcode'), weights=(2, 1), expected_steps=400, victims=['consumer'])
